@@ -567,7 +567,7 @@ fn main() {
     }
     let quick = cfg.quick();
     let maxd: u32 = if quick { 3 } else { 4 };
-    let depth_bound = 2usize;
+    let depth_bound = if quick { 2usize } else { 3 };
     // initial states: every Buf2 root up to maxd x maxd with distinct cell values; every accepted direct root
     let mut init: Vec<State> = vec![];
     for w in 0..=maxd { for h in 0..=maxd {
@@ -606,7 +606,7 @@ fn main() {
         let results = std::sync::Mutex::new(vec![]);
         let r = par_range(&cfg, states.len() as u64, |i, rp| {
             let st = &states[i as usize];
-            let small = st.root.len() <= if quick { 6 } else { 9 };
+            let small = st.root.len() <= if quick { 6 } else if depth >= 2 { 4 } else { 9 };
             let ws = want_succ && (depth == 0 || small);
             let succ = expand(st, rp, &src, ws, depth == 0);
             rp.states += 1;
